@@ -4,6 +4,7 @@ from sa.core.source import Repo
 from sa import report
 prop=sys.argv[1]
 repo=Repo(sys.argv[2] if len(sys.argv)>2 else None); res=report.Result(prop,repo)
+from sa.run import _register_abstract_classes; _register_abstract_classes(repo)
 importlib.import_module('sa.checks.'+prop).check(repo,res,'quick')
 for o in res.obs: print(o.status[:4], o.rule, o.construct.split('::',1)[-1][:90], '|', o.msg[:110])
 print(res.floors)
